@@ -149,6 +149,11 @@ pub struct HistInner {
     pub accepted_live: [i64; 2],
     pub accepted_max: [i64; 2],
     pub conn_results: [Option<Result<(), ErrFacts>>; 2],
+    /// step at which the server application obtained each stream from accept()
+    pub accept_step: BTreeMap<u32, u64>,
+    /// abrupt_shutdown(code) calls: (side, code, step)
+    pub abrupt: Vec<(u8, u32, u64)>,
+    pub graceful: Vec<(u8, u64)>,
 }
 
 #[derive(Debug, Clone)]
@@ -236,5 +241,9 @@ impl Hist {
     }
     pub fn step(&self) -> u64 {
         self.with(|h| h.step)
+    }
+    /// body bytes obtained by receiving applications so far (both directions, all streams)
+    pub fn app_bytes(&self) -> u64 {
+        self.with(|h| h.streams.values().map(|s| s.dirs[0].r_body + s.dirs[1].r_body).sum())
     }
 }
